@@ -17,7 +17,7 @@ readers.degnorm d                                              → ok d'
 `ins iew ivt` are positions in the trace/file list given on the request line.
 -/
 namespace HV.Drv
-open HV.Proto
+open HV.Proto HV.Rd
 
 def ratOfTok (t : String) : Except String Rat :=
   match t.splitOn "/" with
